@@ -133,6 +133,14 @@ def x_geom(p):
                 except Exception:
                     one[key] = -1
             badcols.append(one)
+    # identifiers with two row letters have no EVO position (the Fluent resolver is lenient about row letters, see above)
+    for ident in ("AB01", "BC01", "AA01", "ba01"):
+        one = {"id": ident, "evo": -1, "fluent": -1}
+        try:
+            one["evo"] = _int(eu.get_well_position(lw, ident), bad=-2)
+        except Exception:
+            one["evo"] = -1
+        badcols.append(one)
     rec = {
         "fn": "geom",
         "badcols": badcols,
@@ -394,7 +402,10 @@ def x_shift(p):
         if p.get("own"):
             # the object has been used before, on its own table of source wells (a caller shifting "the whole plate")
             try:
-                sh.unshift(sh.shift(sh.wells_A))
+                got = sh.shift(sh.wells_A)
+                back = sh.unshift(got)
+                got[...] = "Z99"      # ... and wrote into what it got back
+                back[...] = "Z98"
             except Exception:  # noqa
                 pass
         try:
@@ -425,6 +436,15 @@ def x_rot(p):
     res = {"cw": NOSHAPE, "ccw": NOSHAPE, "cwccw": NOSHAPE, "ccwcw": NOSHAPE, "cw4": NOSHAPE, "cw2": NOSHAPE, "argafter": NOSHAPE}
     try:
         r1, r2 = rt.WellRotator(sh), rt.WellRotator(sw)
+        if p.get("scribble"):
+            # an earlier caller rotated the whole plate and then wrote into the arrays it got back
+            whole = np.array([[wid(rr, cc) for cc in range(sh[1])] for rr in range(sh[0])])
+            for rot, src in ((r1.rotate_cw, whole), (r1.rotate_ccw, whole)):
+                try:
+                    got = rot(src.copy())
+                    got[...] = "Z99"
+                except Exception:  # noqa
+                    pass
         arg = _wells_arg(p["wells"], p.get("present", "list"))
         cw = r1.rotate_cw(arg)
         ccw = r1.rotate_ccw(arg)
@@ -457,6 +477,15 @@ def x_rand(p):
         allw = [wid(rr, cc) for rr in range(sh[0]) for cc in range(sh[1])]
         tab1 = [[_parse_wid(w), _parse_wid(str(v))] for w, v in zip(allw, np.asarray(r1.randomize_wells(allw)).flatten())]
         tab2 = [[_parse_wid(w), _parse_wid(str(r2.randomize_wells(w)))] for w in allw]
+        if p.get("scribble"):
+            try:
+                whole = np.array([[wid(rr, cc) for cc in range(sh[1])] for rr in range(sh[0])])
+                got = r1.randomize_wells(whole)
+                got2 = r2.derandomize_wells(got.copy())
+                got[...] = "Z99"
+                got2[...] = "Z98"
+            except Exception:  # noqa
+                pass
         arg = _wells_arg(p["wells"], p.get("present", "list"))
         rnd = r1.randomize_wells(arg)
         res["rnd"] = _arr_to_shape(rnd)
